@@ -379,7 +379,7 @@ def fixed_cases():
     X = G.XHTML
     out = []
     for m in outlib.METHODS:
-        out.append({'kind': 'nocache', 'method': m, 'texts': ['a', 'b', 'a']})
+        out.append({'kind': 'nocache', 'method': m, 'strip': False, 'texts': ['a', 'b', 'a']})
         out.append({'kind': 'cache', 'method': m, 'strip': False, 'stream': [
             ['S', ['', 'div'], []], ['SC'], ['T', 'a<b', False], ['EC'], ['S', ['', 'p'], []], ['T', 'a<b', False],
             ['E', ['', 'p']], ['SC'], ['T', 'a<b', False], ['EC'], ['E', ['', 'div']]]})
@@ -388,7 +388,7 @@ def fixed_cases():
 
 def run(ctx):
     nsh = 16
-    per = ctx.n(40, 900)
+    per = ctx.n(400, 6000)
     res = Result()
     for c in fixed_cases():
         res.evaluations += 1
